@@ -6,6 +6,7 @@ import (
 	"math"
 	"strings"
 	"sync"
+	"sync/atomic"
 	"testing"
 	"time"
 
@@ -267,12 +268,17 @@ func run(c Case) (pbt.Outcome, error) {
 		}
 		out.Classes = append(out.Classes, fmt.Sprintf("predecessor-reporter-%d", c.Pred))
 	}
+	var paceOff atomic.Bool
 	m3.VerifSetHooks(&m3.VerifHooks{
 		NoteBatch: func(mets []m3thrift.Metric, ct []m3thrift.MetricTag, freeBytes, overheadBytes int32) {
 			mu.Lock()
 			batches++
+			b := batches
 			overhead, free = overheadBytes, freeBytes
 			mu.Unlock()
+			if !paceOff.Load() && !sink.Pace(b-1, 256) { // never more than a few hundred datagrams in flight (see udpsink.Pace)
+				paceOff.Store(true)
+			}
 		},
 		NoteCharged: func(size int32, m *m3thrift.Metric) {
 			real := m3h.MetricSize(c.Binary, *m)
